@@ -135,6 +135,16 @@ type stringer struct{}
 
 func (stringer) String() string { return "stringer" }
 
+// sliceErr is an error whose dynamic type is not hashable (a validation-error list): a plain error like any other.
+type sliceErr []string
+
+func (e sliceErr) Error() string { return "slice error: " + fmt.Sprint([]string(e)) }
+
+// fieldErr is an unhashable error of struct kind, returned by value.
+type fieldErr struct{ fields []string }
+
+func (e fieldErr) Error() string { return "field error: " + fmt.Sprint(e.fields) }
+
 func (h opHandler) HandleOperation(ctx context.Context, req kmip.OperationPayload) (kmip.OperationPayload, error) {
 	pl := req.(*payloads.ActivateRequestPayload)
 	var c, k int
@@ -147,6 +157,12 @@ func (h opHandler) HandleOperation(ctx context.Context, req kmip.OperationPayloa
 		return nil, kmipserver.ErrItemNotFound
 	case "plain":
 		return nil, errors.New("plain failure")
+	case "plainU":
+		return nil, sliceErr{"first", "second"}
+	case "plainF":
+		return nil, fmt.Errorf("wrapped: %w", fieldErr{fields: []string{"x"}})
+	case "panicU":
+		panic(fieldErr{fields: []string{"y"}})
 	case "panics":
 		panic("handler panic (string)")
 	case "panice":
@@ -162,7 +178,7 @@ func (h opHandler) HandleOperation(ctx context.Context, req kmip.OperationPayloa
 	return &payloads.ActivateResponsePayload{UniqueIdentifier: pl.UniqueIdentifier}, nil
 }
 
-var outcomes = []string{"ok", "ok", "typed", "plain", "panics", "panice", "panici", "panicn", "panicS"}
+var outcomes = []string{"ok", "ok", "typed", "plain", "plainU", "plainF", "panics", "panice", "panici", "panicn", "panicS", "panicU"}
 
 func newWorld(w *vh.Writer, seed int64) *world {
 	wd := &world{ctl: sched.New(), w: w, ln: memnet.NewListener(), cli: map[int]*memnet.Conn{}, sentk: map[int]int{},
